@@ -4,6 +4,7 @@ import AmqModel.Driver.FrameBufEngine
 import AmqModel.Driver.TuneEngine
 import AmqModel.Driver.UrlEngine
 import AmqModel.Driver.MachineEngine
+import AmqModel.Driver.ApiEngine
 namespace AmqModel.Driver
 
 def engineByName : String → Option Engine
@@ -18,6 +19,7 @@ def engineByName : String → Option Engine
   | "url" => some urlEngine
   | "machine" => some machineEngine
   | "machine-legacy" => some machineLegacyEngine
+  | "api" => some apiEngine
   | _ => none
 
 end AmqModel.Driver
